@@ -67,6 +67,8 @@ fn case(t0: &mut Tape, w: &Worker) -> CaseResult {
             word_payload: false,
             max_payload: if ot.chance(1, 10) { 10_000 } else { 500 },
             all_rdh0_valid: true,
+            // one case in 40: 101..140 packets that all carry more than 8 KiB (full batches of the reader)
+            near_max: ot.chance(1, 40),
             ..Default::default()
         },
     );
